@@ -293,10 +293,17 @@ def rule_reader_exact(fb, res):
             if any(x.get("k") == "un" and x.get("op") == "*" and pdecl in reads(x) for e in es for x in walk(e)) and len(es) == 1:
                 lens.add(d)
         cfg = g.cfg
+        from rules.c03 import remaining_views
+        rviews = remaining_views(g, ends, pdecl)
         advances = [x for x in g.nodes() if x.get("k") == "cassign" and x.get("op") == "+" and lvalue_root(x["l"]) == pdecl]
+        # a view of the remaining bytes that is shrunk from the front plays the cursor's role
+        advances += [{"r": x["args"][0], "id": x["id"]} for x in g.calls() if (x.get("callee") or {}).get("nm") == "remove_prefix" and x.get("args") and
+                     strip_all_casts(x.get("obj", {})).get("decl") in rviews]
 
         def syms(x):
             if x.get("k") == "bin" and x.get("op") == "-" and strip_all_casts(x["l"]).get("decl") in ends and strip_all_casts(x["r"]).get("decl") == pdecl:
+                return "R"
+            if x.get("k") == "call" and (x.get("callee") or {}).get("nm") in ("size", "length") and strip_all_casts(x.get("obj", {})).get("decl") in rviews:
                 return "R"
             if x.get("k") == "ref" and x.get("decl") in lens:
                 return "L"
@@ -304,8 +311,8 @@ def rule_reader_exact(fb, res):
         for c in g.nodes():
             if c.get("k") != "bin" or c.get("op") not in ("<", "<=", ">", ">="):
                 continue
-            l = strip_all_casts(facts.expand(g, c["l"], keep=tuple(ends | lens)))
-            r = strip_all_casts(facts.expand(g, c["r"], keep=tuple(ends | lens)))
+            l = strip_all_casts(facts.expand(g, c["l"], keep=tuple(ends | lens | rviews)))
+            r = strip_all_casts(facts.expand(g, c["r"], keep=tuple(ends | lens | rviews)))
             if not any(syms(x) == "R" for e in (l, r) for x in walk(e)):
                 continue
             n += 1
